@@ -367,7 +367,11 @@ def check_offset_typestate(ctx, lib):
             for c in cfg_cycles(b):
                 if nexts and nexts[0] in c:
                     loop = set(c)
-            after_args = bool(nexts) and sb_ not in loop and b.dominates(nexts[0], sb_)
+            # no argument is evaluated once the offset is set (whether the arguments are evaluated in a loop or by an iterator chain)
+            rec_blocks = {x for x, _, _, _ in arm.recursive}
+            later = reach_avoiding(b, sb_) - {sb_}
+            in_cycle_with_store = any(sb_ in c and (rec_blocks & set(c)) for c in cfg_cycles(b))
+            after_args = bool(rec_blocks) and not (rec_blocks & later) and not in_cycle_with_store
             before = all(b.dominates(sb_, x) for x in gf + [e[0] for e in ev] + fc) and gf and ev and fc
             ctx.check(after_args and bool(before), rule, "Function:set-point", "the call's offset is stored after all arguments were evaluated and before lookup, invocation and the unknown-function error", b.span)
             # the saved value is read before the set and never overwritten in between
